@@ -42,6 +42,8 @@ def plan(tier, seed):
         specs.append({'kind': 'whole_p8', 'count': 12 if tier == 'quick' else 60})
     for i in range(n):
         specs.append({'kind': 'png', 'count': 8 if tier == 'quick' else 40, 'first': i == 0})
+    for i in range(2 if tier == 'quick' else 8):
+        specs.append({'kind': 'resave', 'count': 15 if tier == 'quick' else 80})
     return specs
 
 
@@ -278,6 +280,20 @@ def run_shard(spec, ctx):
                 ctx.violation('.p8 reader raised %r on a format-conforming file' % (e,), case)
                 continue
             ctx.monitor('p8_files_reference_written_and_read')
+            if i % 3 == 0:
+                # the same file with CRLF line ends: it must be rejected, or read to the same bytes
+                try:
+                    gc = P8Formatter.from_file(io.BytesIO(data.replace(b'\n', b'\r\n')))
+                    ctx.feature('crlf_file_accepted')
+                    rcr = carts.game_regions(gc)
+                    for name, _ in rc.REGIONS:
+                        want = regions[name] if name != 'music' else rc.music_mask(regions[name])
+                        if rcr[name] != want:
+                            ctx.violation('.p8 reader accepts a CRLF file but reads %s as %d bytes that differ from what the text encodes' % (
+                                name, len(rcr[name])), case)
+                            break
+                except Exception:
+                    ctx.feature('crlf_file_rejected')
             r2 = carts.game_regions(g2)
             for name, _ in rc.REGIONS:
                 want = regions[name] if name != 'music' else rc.music_mask(regions[name])
@@ -292,6 +308,48 @@ def run_shard(spec, ctx):
                     ctx.violation('.p8 reader: version %r' % g2.version, case)
                 elif b''.join(g2.lua.to_lines()) != wantcode:
                     ctx.violation('.p8 reader: code differs', case)
+    elif kind == 'resave':
+        # history: ONE Game object is saved several times, in both formats, with accessor edits in between; every file must
+        # encode the cart memory as it is at that moment
+        from pico8.game.formatter.p8 import P8Formatter
+        from pico8.game.formatter.p8png import P8PNGFormatter
+        from ..memmodel import Shadow
+        for i in range(spec['count']):
+            regions, mode = carts.random_regions(rng)
+            regions['music'] = rc.music_mask(regions['music'])
+            code = carts.simple_lua(rng, rng.choice((0, 40, 400)))
+            g = carts.make_game(regions, code=code, version=rng.randint(1, 255))
+            sh = Shadow(rc.join_memory(regions))
+            steps = []
+            for step in range(rng.randint(2, 6)):
+                fmt = rng.choice(('p8', 'png'))
+                steps.append(fmt)
+                case = {'kind': 'resave', 'steps': list(steps)}
+                ctx.case((rc.join_memory(regions), tuple(steps), step))
+                buf = io.BytesIO()
+                try:
+                    (P8Formatter if fmt == 'p8' else P8PNGFormatter).to_file(g, buf)
+                    ref = rc.read_p8(buf.getvalue()) if fmt == 'p8' else rc.read_p8png(buf.getvalue())
+                except Exception as e:
+                    ctx.violation('save #%d (%s) of the same Game failed: %r' % (step + 1, fmt, e), case)
+                    break
+                ctx.monitor('resaves_compared')
+                bad = [n for n, _ in rc.REGIONS if ref[n] != (sh.region(n) if n != 'music' else rc.music_mask(sh.region(n)))]
+                if bad:
+                    ctx.violation('save #%d (%s after %s): sections %s do not encode the cart memory (lengths %s)' % (
+                        step + 1, fmt, steps[:-1], bad, [len(ref[n]) if ref[n] is not None else None for n in bad]), case)
+                    break
+                # edits between saves
+                x, y, v = rng.randrange(128), rng.randrange(64), rng.randrange(256)
+                g.map.set_cell(x, y, v)
+                sh.set_cell(x, y, v)
+                sid, dur = rng.randrange(64), rng.randrange(256)
+                g.sfx.set_properties(sid, note_duration=dur)
+                sh.set_sfx_properties(sid, note_duration=dur)
+                fid, fl = rng.randrange(256), rng.randrange(256)
+                g.gff.reset_flags(fid, fl)
+                sh.reset_flags(fid, fl)
+            ctx.feature('resave_histories')
     elif kind == 'png':
         from pico8.game.formatter.p8png import P8PNGFormatter
         import tempfile
@@ -377,6 +435,8 @@ def gates(m, tier):
               'png_files_reference_written_and_read', 'png_files_written_and_reference_read'):
         if mon.get(k, 0) < 20:
             missed.append('%s = %d' % (k, mon.get(k, 0)))
+    if f.get('resave_histories', 0) < 20 or f.get('crlf_file_accepted', 0) + f.get('crlf_file_rejected', 0) < 10:
+        missed.append('resave histories %d, CRLF variants %d' % (f.get('resave_histories', 0), f.get('crlf_file_accepted', 0) + f.get('crlf_file_rejected', 0)))
     if f.get('p8_label', 0) < 5 or f.get('p8_nolabel', 0) < 5:
         missed.append('label present/absent under-sampled')
     return missed
